@@ -15,3 +15,24 @@ add("C01",
     "control points and positive weights at once. " + S_NOTE,
     "DESIGN.md 5/C01", COMMON_TRUST,
     "contracts on the real functions; real code run on symbolic field elements, path-exhaustive per shape, identities by normal form (bounded in shape)")
+
+add("C02",
+    "Contracts on Function(U)[i, j](u): value == N_i,j(u) (w_i N_i,j / sum w_k N_k,j with weights) for every j <= p, index forms (int, negative, slice, "
+    "default) select rows of the same table; index validation (__valid_first_index / __valid_second_index) proved for all npts/degree by engine V; "
+    "non-negativity / support / partition of unity proved on the spec per shape. " + S_NOTE,
+    "DESIGN.md 5/C02", COMMON_TRUST,
+    "contracts on the real functions; engine V (AST->VC->z3) for index validation, real code on symbolic field elements per shape for the values (bounded in shape)")
+add("C04",
+    "Contracts on heavy.Operations.knot_insert (refinement identity sum_j Nnew_j T[j][i] == Nold_i on every new span) and Curve.knot_insert "
+    "(knot vector == sorted multiset union; C_new(u) == C_old(u) as (rational) functions; ValueError + unchanged state for overflow / outside / end nodes) "
+    "for all knot values, node values in a span (0 included), control points and positive weights. " + S_NOTE,
+    "DESIGN.md 5/C04", COMMON_TRUST,
+    "contracts on the real functions; real code on symbolic field elements, path-exhaustive per shape and node class (bounded in shape)")
+add("C17",
+    "Contract on ImmutableKnotVector.__or__/__and__ and the KnotVector facades: result == closed-form multiplicity merge (degree max(p,q), lower continuity "
+    "order per knot; per-knot minimum for equal degrees), commutative, idempotent, operands untouched, different intervals -> ValueError, for every joint "
+    "shape up to the bound and all knot values. " + S_NOTE,
+    "DESIGN.md 5/C17", COMMON_TRUST,
+    "contracts on the real functions; real code on symbolic knot values per joint shape (bounded in shape)")
+ENGINE_S += ["C02", "C04", "C17"]
+ENGINE_V += ["C01", "C02"]
